@@ -246,6 +246,10 @@ FUNCS = [
 	# --- results.py: the attribute walk behind every CSV cell (an object = None / a value shown as text / a record of attributes)
 	dict(name='getattr_nested', file='results.py', qual='getattr_nested', module='PyGetattr', env=[], strings='plain',
 	     params=[('obj', ('pyobj',)), ('attrs', STR), ('pass_none', BOOL)], ret=('pyobj',), rebind_param=('attrs', 'isinstance(attrs, str)')),
+	# --- sigs/calc.py: the signature of a file = calc_signature over its records' sequences, in file order (environment RECS: what parse() yields)
+	dict(name='calc_file_signature', file='sigs/calc.py', qual='calc_file_signature', module='PyCalcFile', env=[('RECS', 'List (List UInt8)')],
+	     params=[('kspec', KSPEC), ('seqfile', ('obj',)), ('accumulator', OPT(('acc',)))], ret=LIST(INT),
+	     opaque={'seqfile.parse()': ('()', ('obj',)), '(record.seq for record in records)': ('RECS', LIST(BYTES))}),
 	# --- cluster.py: linkage matrix -> tree (heights as exact integers; link rows = (left, right, height, size))
 	dict(name='linkage_to_bio_tree', file='cluster.py', qual='linkage_to_bio_tree', module='PyCluster', env=[],
 	     params=[('link', LIST(TUP(INT, INT, INT, INT))), ('labels', LIST(NUM))], ret=REC('Clade'), locals={'clades': LIST(REC('Clade'))}),
